@@ -2,8 +2,9 @@
 
 1. TLC checks FileModel exhaustively (small constants): every API operation taken through each driver
    path the code has for it (io_uring entry / polling driver thread pool / polling readiness /
-   blocking fallback) gives the result of the OS's own call, modulo four NAMED deviations of the pinned
-   tree; sanity invariants of the reference model itself (length = max written end, reads are
+   blocking fallback) gives the result of the OS's own call; the four deviations found in the pinned tree
+   (repaired by fix: commits) are switches of the model and the control configuration with the old
+   behaviour must violate the invariant; sanity invariants of the reference model itself (length = max written end, reads are
    substrings, pipe FIFO).
 2. Gen_FileModel enumerates behaviours (quick: every operation once from every initial state with the
    wide alphabet + all sequences of depth 3 over a narrow alphabet; thorough: deeper + seeded random
@@ -170,13 +171,16 @@ def run(run, tier, replay):
         gen_jobs = [lambda i=i: _gen(gens[i][0], paths[i], stats[i], workers=1, timeout=2400, **gens[i][1])
                     for i in range(len(gens))]
         build_job = [lambda: build.__setitem__(0, vlib.cargo_build("hfs", [BIN]))]
+        # control: with the four repaired deviations switched on (the pinned tree's behaviour) PathsAgree must fail
+        ctl_jobs = [lambda: vlib.tlc("FileModel", "MC_FileModel_old.cfg", workers=1, timeout=600, coverage=False)]
         if quick:
-            out = _parallel(mc_jobs + gen_jobs + build_job)
+            out = _parallel(mc_jobs + gen_jobs + ctl_jobs + build_job)
         else:       # two phases so that never more than 4 TLC workers run
             out = _parallel(mc_jobs + build_job)[:len(mc_jobs)]
             mark("model_checking")
-            out += _parallel(gen_jobs + [lambda: vlib.tlc("FileModel", "MC_FileModel_strict.cfg", workers=1,
-                                                          timeout=600, coverage=False)])
+            out += _parallel(gen_jobs + ctl_jobs)
+            r3 = vlib.tlc("FileModel", "MC_FileModel_oldknown.cfg", workers=2, timeout=600)
+            vlib.require_model_ok(r3, "FileModel/MC_FileModel_oldknown.cfg")
         mark("tlc_and_build")
         for c, r in zip(mc_cfgs, out):
             vlib.require_model_ok(r, "FileModel/" + c)
@@ -187,27 +191,23 @@ def run(run, tier, replay):
         for (c, kw), g, st in zip(gens, out[len(mc_cfgs):len(mc_cfgs) + len(gens)], stats):
             if st["n"] == 0:
                 raise vlib.ToolError("Gen_FileModel/%s printed no behaviours" % c)
-            if not kw:        # exhaustive generation also checked PathsAgreeModuloKnown and Sanity in every state
+            if not kw:        # exhaustive generation also checked PathsAgree and Sanity in every state
                 run.add_model("Gen_FileModel/" + c, g)
             run.note("behaviours_" + c, st["n"])
             for s in st["samples"][:2]:
                 run.sample(s, limit=4)
-        if not quick:
-            r2 = out[-1]
-            if r2.violated != "PathsAgreeStrict":
-                raise vlib.ToolError("strict control: expected FileModel to violate PathsAgreeStrict, got %s %s" %
-                                     (r2.violated, r2.error))
-        # non-vacuity: the named deviations are what makes PathsAgreeModuloKnown hold, and they are exercised
+        r2 = out[len(mc_cfgs) + len(gens)]
+        if r2.violated != "PathsAgree":
+            raise vlib.ToolError("old-behaviour control: expected FileModel with the repaired deviations switched on to "
+                                 "violate PathsAgree, got %s %s" % (r2.violated, r2.error))
         devs = {}
         pairs = set()
         for st in stats:
             pairs |= st["pairs"]
             for k, v in st["dev"].items():
                 devs[k] = devs.get(k, 0) + v
-        for need in ("readv_at@iour_entry", "preadv@iour_entry", "preadv@poll_ready", "read_at@iour_entry",
-                     "write_at@iour_entry", "open@blocking_fallback"):
-            if not devs.get(need):
-                raise vlib.ToolError("vacuous: no generated behaviour takes the named deviation %s" % need)
+        if devs:
+            raise vlib.ToolError("the generation configs predict deviations although Devs is empty: %s" % devs)
         run.note("deviation_steps_generated", devs)
         for drv in ("iour", "poll", "iour_blk"):
             want = FALLBACK_OPS if drv == "iour_blk" else ALL_OPS
